@@ -408,9 +408,11 @@ impl<'a> World<'a> {
                 }
                 if !dec_rfc {
                     self.stat("probe.accept_beyond_model", 1);
-                    if self.reported.insert("model-mismatch".into()) {
-                        self.ctx.violate("HARNESS.model_mismatch", format!("{what}: rustrtc decoded a genuine packet correctly that the RFC 3711 index model calls undecodable (harness labelling or model error); model after: {:?}", self.m_rfc[w.si]));
-                    }
+                    // Not a violation by itself (a genuine packet was decoded correctly) and not a harness error
+                    // either: a receiver whose index state has drifted from RFC 3711 3.3.1 can decode what a
+                    // conformant one cannot. The model stays the conformant receiver; if the drift matters, the
+                    // packets it decodes and rustrtc rejects are reported by C04.roundtrip below. Counted in evidence
+                    // (0 on the unchanged tree).
                 }
             }
             Err(e) => {
